@@ -4,26 +4,27 @@ import (
 	"github.com/free5gc/nas/nasType"
 )
 
+// TS 23.038 6.1.2.1.1: septets are packed end to end, least significant bit first,
+// n septets take ceil(7n/8) octets
+func packGsm7Bit(septets []byte) []uint8 {
+	buf := make([]uint8, (7*len(septets)+7)/8)
+	for i, septet := range septets {
+		bitPos := 7 * i
+		shifted := uint16(septet&0x7f) << (bitPos % 8)
+		buf[bitPos/8] |= uint8(shifted)
+		if shifted>>8 != 0 {
+			buf[bitPos/8+1] |= uint8(shifted >> 8)
+		}
+	}
+	return buf
+}
+
 // TS 24.501 9.11.3.35, TS 24.008 10.5.3.5a
 func FullNetworkNameToNas(name string) (fullNetworkName nasType.FullNameForNetwork) {
 	asciiArray := []byte(name)
-	numOfSpareBits := 8 - ((7 * len(asciiArray)) % 8)
+	numOfSpareBits := (8 - ((7 * len(asciiArray)) % 8)) % 8
 
-	var buf []uint8
-	idx := uint8(7)
-	for i, char := range asciiArray {
-		if i == 0 {
-			buf = append(buf, char)
-		} else {
-			buf[i-1] = (buf[i-1] & nasType.GetBitMask(idx+1, 0)) + char<<idx
-			buf = append(buf, char>>(8-idx))
-			idx--
-			// if idx overflow, it will round to max(uint8) == 255 == ^uint8(0)
-			if idx == ^uint8(0) {
-				idx = 7
-			}
-		}
-	}
+	buf := packGsm7Bit(asciiArray)
 
 	fullNetworkName.SetLen(uint8(1 + len(buf)))
 	fullNetworkName.SetCodingScheme(0)
@@ -36,23 +37,9 @@ func FullNetworkNameToNas(name string) (fullNetworkName nasType.FullNameForNetwo
 
 func ShortNetworkNameToNas(name string) (shortNetworkName nasType.ShortNameForNetwork) {
 	asciiArray := []byte(name)
-	numOfSpareBits := 8 - ((7 * len(asciiArray)) % 8)
+	numOfSpareBits := (8 - ((7 * len(asciiArray)) % 8)) % 8
 
-	var buf []uint8
-	idx := uint8(7)
-	for i, char := range asciiArray {
-		if i == 0 {
-			buf = append(buf, char)
-		} else {
-			buf[i-1] = (buf[i-1] & nasType.GetBitMask(idx+1, 0)) + char<<idx
-			buf = append(buf, char>>(8-idx))
-			idx--
-			// if idx overflow, it will round to max(uint8) == 255 == ^uint8(0)
-			if idx == ^uint8(0) {
-				idx = 7
-			}
-		}
-	}
+	buf := packGsm7Bit(asciiArray)
 
 	shortNetworkName.SetLen(uint8(1 + len(buf)))
 	shortNetworkName.SetCodingScheme(0)
